@@ -7,14 +7,15 @@ from . import paths as P
 from . import C02
 
 EXPLANATION = (
-    "Decides structural necessary conditions of C08 from MIR: (R1) the records key is the tuple (namespace[32], author[32], key) "
-    "in that order, RecordIdentifier is namespace||author||key (constructor append order, accessor ranges) and into_entry / "
-    "entry_put / to_byte_tuple map component i to component i (and the value tuple's fields to the right Record / signature "
-    "fields); (R2) StoreInstance::get_range: every bound derived from range.x() is Included and every bound derived from "
-    "range.y() is Excluded, the Less arm scans [x,y), the Greater (wrap-around) arm chains [start,y) before [x,end), the Equal "
-    "arm scans the namespace bounds; (R3) get_fingerprint starts from Fingerprint::empty(), scans get_range of the same range and "
-    "folds with xor of as_fingerprint; get_first scans the namespace bounds and falls back to RecordIdentifier::default(); "
-    "(R4) the prefix primitives (shared with C02.R3/R4). NOT decided: transcript equality as a relation between two executions."
+    'Decides structural necessary conditions of C08 from MIR: (R1) the records key is the tuple (namespace[32], author[32],'
+    ' key) in that order, RecordIdentifier is namespace||author||key (constructor append order, accessor ranges) and '
+    "into_entry / entry_put / to_byte_tuple map component i to component i (and the value tuple's fields to the right "
+    'Record / signature fields); (R2) StoreInstance::get_range evaluated per cmp(x,y) (table scans opened, their bounds, '
+    'chaining order): every bound derived from range.x() is Included and every bound derived from range.y() is Excluded, '
+    'the Less arm scans [x,y), the Greater (wrap-around) arm chains [start,y) before [x,end), the Equal arm scans the '
+    'namespace bounds; (R3) get_fingerprint starts from Fingerprint::empty(), scans get_range of the same range and folds '
+    'with xor of as_fingerprint; get_first scans the namespace bounds and falls back to RecordIdentifier::default(); (R4) '
+    'the prefix primitives (shared with C02.R3/R4). NOT decided: transcript equality as a relation between two executions.'
 )
 ASSUMPTIONS = ["redb tuple key order equals component-wise byte order", "blake3 / xor fingerprint algebra trusted"]
 
